@@ -171,9 +171,18 @@ class Program:
     def build(self, sc, rec):
         raise NotImplementedError
 
+    stress = False
+
     def wrap(self, sc, port, name):
-        port._lock = sched.SchedLock(sc, port._lock, name)
+        port._lock = self.wraplock(sc, port._lock, name)
         return port
+
+    def wraplock(self, sc, lock, name):
+        """Under the deterministic scheduler the port's own lock is wrapped;
+        in free-running stress mode it is left exactly as the port made it."""
+        if self.stress:
+            return lock
+        return sched.SchedLock(sc, lock, name)
 
 
 class P1Wire(Program):
@@ -209,7 +218,7 @@ class P3IOPort(Program):
         i = self.wrap(sc, WireIn('in', wire=self.wire), 'in')
         o = self.wrap(sc, WireOut('out', wire=self.wire), 'out')
         p = IOPort(i, o)
-        p._lock = sched.SchedLock(sc, p._lock, 'io')
+        p._lock = self.wraplock(sc, p._lock, 'io')
         self.ports = {'io': p}
         self.keep = (i, o)
         self.wires = [self.wire]
@@ -282,7 +291,7 @@ class P6ParserQueue(Program):
 
     def build(self, sc, rec):
         q = ParserQueue()
-        q._parser_lock = sched.SchedLock(sc, q._parser_lock, 'pq')
+        q._parser_lock = self.wraplock(sc, q._parser_lock, 'pq')
         p = QueuePort(q)
         self.ports = {'q': p}
         self.wires = []
@@ -297,7 +306,7 @@ class P6bParserQueuePollers(Program):
 
     def build(self, sc, rec):
         q = ParserQueue()
-        q._parser_lock = sched.SchedLock(sc, q._parser_lock, 'pq')
+        q._parser_lock = self.wraplock(sc, q._parser_lock, 'pq')
         p = QueuePort(q)
         self.ports = {'q': p}
         self.wires = []
@@ -455,6 +464,121 @@ def check_history(ctx, sc, rec, prog, case):
         ctx.check('wire bytes contiguous', bad is None, f'{pname}:wire-interleaved', case, bad)
 
 
+class FreeClock:
+    """Logical clock for free-running mode: one atomic counter."""
+
+    def __init__(self):
+        import itertools
+        self._c = itertools.count(1)
+        self.aborted = None
+        self.errors = []
+        self.trace = []
+        self.contention = 0
+        self.sleeps = 0
+        self.switch_sites = ()
+
+    @property
+    def step(self):
+        return next(self._c)
+
+
+class YieldInjector:
+    """LINE callback for free-running stress: seeded sleep(0) / short sleeps
+    so that the OS scheduler switches threads inside mido code."""
+
+    def __init__(self, seed, p=0.08):
+        self.rng = random.Random(seed)
+        self.p = p
+        self.n = 0
+
+    def _line_cb(self, code, line):
+        r = self.rng.random()
+        if r < self.p:
+            self.n += 1
+            import time as _t
+            _t.sleep(0 if r > self.p / 8 else 0.00002)
+        return None
+
+
+def stress_run(prog_cls, seed):
+    import sys as _sys
+    import threading as _th
+    import time as _t
+    clock = FreeClock()
+    rec = Recorder(clock)
+    prog = prog_cls()
+    prog.stress = True
+    inj = YieldInjector(seed)
+    orig_sleep = mido.ports.sleep
+    orig_random = mido.ports.random
+    mido.ports.sleep = lambda: _t.sleep(0.0001)
+    mido.ports.random = random.Random(seed)
+    old_si = _sys.getswitchinterval()
+    sched.install(codes())
+    try:
+        bodies = prog.build(None, rec)
+
+        def guard(i, body):
+            def run():
+                try:
+                    body()
+                except BaseException as exc:
+                    clock.errors.append((i, type(exc).__name__, repr(exc)))
+            return run
+        ths = [_th.Thread(target=guard(i, b), daemon=True) for i, b in enumerate(bodies)]
+        _sys.setswitchinterval(1e-6)
+        sched.CURRENT = inj
+        for t in ths:
+            t.start()
+        for t in ths:
+            t.join(20.0)
+        if any(t.is_alive() for t in ths):
+            clock.aborted = 'step limit'          # a thread never finished
+    finally:
+        sched.CURRENT = None
+        _sys.setswitchinterval(old_si)
+        mido.ports.sleep = orig_sleep
+        mido.ports.random = orig_random
+    if not clock.aborted:
+        for pname, port in prog.ports.items():
+            for _ in range(len(rec.sent) + 3):
+                rec.call(9, 'drain', pname)
+                try:
+                    m = port.poll()
+                except Exception as exc:
+                    rec.exc(9, 'drain', pname, exc)
+                    break
+                rec.ret(9, 'drain', pname, m)
+                if m is None:
+                    break
+    for port in list(prog.ports.values()) + list(getattr(prog, 'keep', ())):
+        if hasattr(port, 'closed'):
+            port.closed = True
+    return clock, rec, prog, inj.n
+
+
+def stress_phase(ctx, budget_s):
+    import time as _t
+    t_end = _t.time() + budget_s
+    n = 0
+    injected = 0
+    while _t.time() < t_end:
+        for pi, prog_cls in enumerate(PROGRAMS):
+            seed = f'{ctx.seed}:{ctx.shard}:stress:{n}'
+            clock, rec, prog, k = stress_run(prog_cls, seed)
+            injected += k
+            hist = [list(e[:5]) + [repr(e[5])[:60]] for e in rec.events]
+            check_history(ctx, clock, rec, prog,
+                          lambda: {'kind': 'stress', 'program': pi, 'seed': seed, 'history': hist[:80]})
+            ctx.nontrivial(('stress', seed))
+            n += 1
+            if clock.aborted:
+                return n
+    ctx.extra('stress_runs', n)
+    ctx.extra('stress_yields_injected', injected)
+    return n
+
+
 def explore_program(ctx, pi, prog_cls, k, shard_filter, n_random, n_pct, tier):
     """Bounded-preemption enumeration (sharded by first preemption) + sampling."""
     distinct = set()
@@ -513,7 +637,10 @@ def run(ctx):
             ctx.nontrivial(h ^ (pi << 60))
         total.update(st)
         ctx.extra('schedules_per_program', {prog_cls.name: st['schedules']})
-    ctx.count('cases', total['schedules'])
+    nstress = 0
+    if ctx.tier == 'thorough':
+        nstress = stress_phase(ctx, 25.0)
+    ctx.count('cases', total['schedules'] + nstress)
     ctx.extra('scheduler_steps', total['steps'])
     ctx.extra('context_switches', total['context_switches'])
     ctx.extra('lock_wait_events', total['lock_waits'])
@@ -528,6 +655,17 @@ def run(ctx):
 
 def replay(ctx, case):
     prog_cls = PROGRAMS[case['program']]
+    if case.get('kind') == 'stress':
+        print('free-running stress histories are not replayable; the recorded history is the witness:')
+        for e in case.get('history', []):
+            print('  ', e)
+        for _ in range(200):
+            clock, rec, prog, k = stress_run(prog_cls, case['seed'])
+            check_history(ctx, clock, rec, prog, case)
+            if ctx.violations:
+                break
+        sched.uninstall()
+        return
     if case['strategy'] == 'preempt':
         st = sched.Preempt(tuple(tuple(p) for p in case['points']))
     elif case['strategy'] == 'random':
